@@ -747,6 +747,31 @@ def region_pixel_bbox(ring, tr, inv_f, n=129, rounds=3):
 
 XQ_PERT = (0.0, 1e-9, -1e-9, 1e-3, -1e-3, 0.25, -0.5)
 
+# regions given in a PROJECTED CRS on grids in a different CRS (geographic or projected), north-up and mirrored,
+# coarse and fine, so that the same region spans a few pixels on one grid and several hundred on another
+PGRIDS = {
+    "lonlat0.1deg": (Affine(0.1, 0.0, 0.03, 0.0, -0.1, 70.07), "EPSG:4326"),
+    "lonlat0.01deg-mirrored": (Affine(-0.01, 0.0, 40.003, 0.0, 0.01, 30.007), "EPSG:4326"),
+    "webmerc10km": (Affine(10000.0, 0.0, 1000123.0, 0.0, -10000.0, 8000456.0), "EPSG:3857"),
+    "webmerc1km-mirrored": (Affine(1000.0, 0.0, 1000123.0, 0.0, 1000.0, 6000456.0), "EPSG:3857"),
+    "utm10km": (Affine(10000.0, 0.0, 200123.0, 0.0, -10000.0, 6500456.0), "EPSG:32633"),
+    "utm1km-mirrored": (Affine(-1000.0, 0.0, 900123.0, 0.0, -1000.0, 6500456.0), "EPSG:32633"),
+    "laea10km": (Affine(10000.0, 0.0, 4000123.0, 0.0, -10000.0, 3600456.0), "EPSG:3035"),
+}
+PREGION_CRS = {"utm33n": "EPSG:32633", "laea3035": "EPSG:3035", "webmerc": "EPSG:3857"}
+PCENTRES = ((15.0, 52.0), (19.0, 54.0), (12.3, 47.5))  # lon, lat of the box centre (on / off the UTM central meridian)
+PWIDTHS_KM = (30, 100, 300, 600)
+PASPECT = (1.0, 0.5)  # height / width
+
+
+def _proj_box(rname, ci, w_km, aspect):
+    """Box in the projected CRS `rname`, centred near PCENTRES[ci] (centre snapped to a km + 123 m)."""
+    rcrs = PREGION_CRS[rname]
+    cx, cy = _tr("EPSG:4326", rcrs).transform(*PCENTRES[ci])
+    cx, cy = round(float(cx), -3) + 123.0, round(float(cy), -3) + 123.0
+    hw, hh = w_km * 500.0, w_km * 500.0 * aspect
+    return rcrs, (cx - hw, cy - hh, cx + hw, cy + hh)
+
 
 def gen_xcrs():
     for grid in XGRIDS:
@@ -759,11 +784,21 @@ def gen_xcrs():
         for (x0, y0, w, h) in ((-2, 1, 1, 3), (40, -30, 0, 2)):
             for d in itertools.product(range(len(XQ_PERT)), repeat=4):
                 yield ("quad", grid, (x0, y0, w, h), d)
+    # boxes in a projected CRS on grids of another CRS
+    for grid in PGRIDS:
+        for rname, rcrs in PREGION_CRS.items():
+            if rcrs == PGRIDS[grid][1]:
+                continue
+            for ci in range(len(PCENTRES)):
+                for w_km in PWIDTHS_KM:
+                    for aspect in PASPECT:
+                        for kind in ("bbox", "poly"):
+                            yield ("proj", grid, rname, ci, w_km, aspect, kind)
 
 
 def run_xcrs(case):
     fam, grid = case[0], case[1]
-    A, gcrs = XGRIDS[grid]
+    A, gcrs = XGRIDS[grid] if grid in XGRIDS else PGRIDS[grid]
     if gcrs not in _CRS:
         _CRS[gcrs] = CRS(gcrs)
     src = GeoBox((4, 5), A * Affine.translation(3, -2), _CRS[gcrs])
@@ -776,6 +811,13 @@ def run_xcrs(case):
         region = BoundingBox(*bb, rcrs) if kind == "bbox" else geom.polygon(ring + ring[:1], rcrs)
         regname = name
         what = f"grid={grid} region={kind} {name} {bb} in {rcrs}"
+    elif fam == "proj":
+        _, _, rname, ci, w_km, aspect, kind = case
+        rcrs, bb = _proj_box(rname, ci, w_km, aspect)
+        ring = [(bb[0], bb[1]), (bb[2], bb[1]), (bb[2], bb[3]), (bb[0], bb[3])]
+        region = BoundingBox(*bb, rcrs) if kind == "bbox" else geom.polygon(ring + ring[:1], rcrs)
+        regname = f"projected-region-{rname}-{w_km}km"
+        what = f"grid={grid} ({gcrs}) region={kind} {bb} in {rcrs} (projected CRS, {w_km} km wide, centre near lon/lat {PCENTRES[ci]})"
     else:
         _, _, (x0, y0, w, h), d = case
         P = XQ_PERT
@@ -794,6 +836,9 @@ def run_xcrs(case):
         what = f"grid={grid} region=polygon {ring} in EPSG:4326 (pixel corners ({X0!r},{Y0!r})..({X1!r},{Y1!r}))"
     vb, tb = region_pixel_bbox(ring, _tr(rcrs, gcrs), inv_f)
     r = R(outcome=f"{grid}:{fam}")
+    if fam == "proj":
+        span = max(tb[2] - tb[0], tb[3] - tb[1])
+        r.outcome += f":{case[2]}:" + ("<10px" if span < 10 else "<100px" if span < 100 else ">=100px")
     got = call(src.enclosing, region)
     if got[0] == "raised":
         return r.fail(f"enclosing:raised:other-crs:{grid}", f"{what}: {type(got[1]).__name__}: {got[1]}")
@@ -982,7 +1027,9 @@ def slices(tier):
                  "same-CRS regions (BoundingBox and polygon) with every side at a perturbed pixel line"),
         e1.Slice("enclosing-xcrs", gen_xcrs, run_xcrs,
                  "regions in another CRS: lon/lat, UTM and web-mercator boxes; few-pixel lon/lat quadrilaterals with "
-                 "perturbed corners; oracle = fresh pyproj transformer on densely sampled edges"),
+                 "perturbed corners; boxes 30-600 km wide in projected CRSs (UTM 33N, LAEA 3035, web-mercator) on lon/lat, "
+                 "web-mercator, UTM and LAEA grids (north-up and mirrored, a few to several hundred pixels); "
+                 "oracle = fresh pyproj transformer on densely sampled edges"),
         e1.Slice("bbox-pairs", gen_bbox_pairs(tier), make_run_bbox_pair(tier), "all ordered pairs of valid boxes, crs None / 3857"),
         e1.Slice("bbox-triples", gen_bbox_pairs(tier, 1), make_run_bbox_triples(tier),
                  "all ordered triples of valid boxes, crs None (case = ordered pair, third operand enumerated inside)"),
